@@ -40,7 +40,8 @@ def render(c):
 def run(pid, tier, seed, replay):
     ck = Check(pid, tier, seed, level="proof")
     n = 400 if tier == "quick" else 8000
-    exh = 4 if tier == "quick" else 5
+    exh = 5                                # Rust oracle: every string of length <= 5 over the 9 letter alphabet
+    exh_coq = 3 if tier == "quick" else 5  # of these, the ones replayed on the Coq model
     ck.proof_step(extra_targets=["Model/CliSplit.vo"])
     ok, out, dt = vlib.cargo_build("h_cli", bin="c51")
     ck.log("cargo build: ok=%s (%.0fs)" % (ok, dt))
@@ -87,11 +88,12 @@ def run(pid, tier, seed, replay):
     # correspondence: the Coq model predicts the implementation's pieces / bytes exactly
     corr = [c for c in cases if (c["k"] in ("split", "script") and "got" in c)
             or (c["k"] == "fmt" and c["strings_only"] and "out" in c and c.get("utf8"))]
-    small = [c for c in corr if c["k"] == "split" and c.get("src") == "exh"]
+    small = [c for c in corr if c["k"] == "split" and c.get("src") == "exh" and len(c["s"]) <= exh_coq]
     rest = [c for c in corr if not (c["k"] == "split" and c.get("src") == "exh")]
+    corr = small + rest
     pre = "From DF Require Import Base.Prelude Model.CliSplit.\nOpen Scope Z_scope."
     nbad = 0
-    for tag, group, shard in (("c51s", small, 4000), ("c51", rest, 250)):
+    for tag, group, shard in (("c51s", small, 1000), ("c51", rest, 150)):
         if not group:
             continue
         bad, log, dt = vlib.coq_eval_cases(pre, "c51_case", "c51_check", [render(c) for c in group], shard=shard, tag=tag)
@@ -109,12 +111,12 @@ def run(pid, tier, seed, replay):
     ck.coverage.update({
         "evaluations": len(cases),
         "distinct_nontrivial": len(nt),
-        "rule": "split: every string of length <= %d over {a, space, ;, ', \", \\, `, LF, -} + random strings over an alphabet with quotes, doubled quotes, "
+        "rule": "split: every string of length <= %d over {a, space, ;, ', \", \\, `, LF, -} (all through the implementation and the Rust reference lexer; those of length <= %d also through the Coq model) + random strings over an alphabet with quotes, doubled quotes, "
                 "backslashes, comments markers and Unicode white space / look-alikes (U+00A0, U+2003, U+0085, U+200B, U+FEFF, U+180E ...); script: 1-4 SELECT "
                 "statements with literals / quoted identifiers holding ; ' \" ` LF -- and doubled quotes, each validated by the real DFParser, joined with ';' and "
                 "white space, empty statements interleaved; fmt: 1-3 columns (Utf8/LargeUtf8/Utf8View/Int64/Boolean, NULLs, hostile column names) x 1-5 rows x "
                 "{csv,tsv,json,ndjson,automatic} x header on/off x 1 or 3 batches (one empty); non-trivial = an input with a quote and a semicolon (split) / a "
-                "cell with a delimiter, quote, CR, LF, backslash or control character (fmt)" % exh,
+                "cell with a delimiter, quote, CR, LF, backslash or control character (fmt)" % (exh, exh_coq),
         "case_kinds": kinds, "script_classes": classes, "formats": fmts,
         "traces_validated_against_impl": len(corr),
         "comment_scripts_split_inside_comment": limitation_comment,
